@@ -138,6 +138,19 @@ CLAIMED['C18'] = dict(
           '(identities, equivariance under transposition, finiteness, inputs untouched) give the failing input.'),
     design='6/C18', technique='Coq proof over Reals + exhaustive discrete evaluation in Coq + in-Coq differential correspondence')
 
+CLAIMED['C03'] = dict(
+    text=('PARTIAL. Proved (exact case, one E o M step from the hard true partition, every K, D, N and gain field): the class '
+          'scatter of observations u_n a (|u_n| = 1) is rank one with the prototype as its only non-trivial eigenvector; Parseval '
+          "for the eigenbasis contract; the MODEL's cACG quadratic form equals c2 + (1-c2)/eps for spectrum (1, eps, ..., eps), is 1 "
+          'for the own class and > 1 otherwise; hence the next E-step keeps every observation in its true class for cACG '
+          '(pi_k/pi_j < q^D, in particular equal weights) and for Watson / vMF (kappa (1 - al) > ln(pi_k/pi_j)). NOT proved: '
+          'perturbed prototypes, blurred starts, iterations >= 2, Gaussian / Bingham / integration models (eigenvector perturbation '
+          "bounds are out of reach): those clauses are EXPLORED - the property's own predicate (MAP class = true class for every "
+          'observation; fitted parameters point at their prototype) is evaluated on every generated scene from the stated domain '
+          '(K 2..4, D K..8, |cos| <= 0.3, perturbation 0 / 1e-4 / 1e-2, class sizes >= D+2, gains 1e-3..1e3, blur 0..0.45, 1..20 '
+          'iterations, all seven models), and the last M-step of each scene is compared inside Coq with Model/Trainers.v.'),
+    design='6/C03', technique='Coq proof of the exact one-step case + exploration of the property predicate on its domain')
+
 NOT_YET = {}
 
 
